@@ -417,3 +417,90 @@ Proof.
 Qed.
 
 End Classes.
+
+(** ** shape of the forest: spans are ordered and nested *)
+Section WF.
+Variable R : Type.
+Variable g : grammar R.
+Local Open Scope N_scope.
+
+(** the pairs of a forest lie between [lo] and [hi], one after the other, children inside their parent *)
+Inductive wf_forest : N -> N -> list (pair R) -> Prop :=
+| WF_nil lo hi : lo <= hi -> wf_forest lo hi []
+| WF_cons lo hi r s e kids rest :
+    lo <= s -> s <= e -> wf_forest s e kids -> wf_forest e hi rest -> wf_forest lo hi (Pair r s e kids :: rest).
+
+Lemma wf_forest_le lo hi l : wf_forest lo hi l -> lo <= hi.
+Proof. induction 1; lia. Qed.
+
+Lemma wf_forest_weaken_lo lo lo' hi l : wf_forest lo hi l -> lo' <= lo -> wf_forest lo' hi l.
+Proof. intros H Hl. destruct H; constructor; try assumption; lia. Qed.
+
+Lemma wf_forest_weaken_hi lo hi hi' l : wf_forest lo hi l -> hi <= hi' -> wf_forest lo hi' l.
+Proof. induction 1; intros Hh; constructor; try assumption; try lia. apply IHwf_forest2; exact Hh. Qed.
+
+Lemma wf_forest_app a b c l1 l2 : wf_forest a b l1 -> wf_forest b c l2 -> wf_forest a c (l1 ++ l2).
+Proof.
+  induction 1; intros Hl2; cbn [app].
+  - eapply wf_forest_weaken_lo; eassumption.
+  - constructor; try assumption. apply IHwf_forest2; exact Hl2.
+Qed.
+
+Lemma run_reps_wf : forall fuel,
+  (forall sk a e inp i inp' i' ps, run g fuel sk a e inp i = Ok (inp', i', ps) -> wf_forest i i' ps) /\
+  (forall sk a x inp i inp' i' ps, reps g fuel sk a x inp i = Ok (inp', i', ps) -> wf_forest i i' ps).
+Proof.
+  induction fuel as [|f [IHr IHp]]; [split; intros; discriminate|].
+  destruct (run_reps_consumed g f) as [Cr Cp].
+  assert (Hskip : forall sk a inp i inp' i' ps,
+            match sk, a, skip_exp g with
+            | true, ANon, Some se => run g f false ANon se inp i
+            | _, _, _ => Ok (inp, i, [])
+            end = Ok (inp', i', ps) -> wf_forest i i' ps).
+  { intros sk a inp i inp' i' ps H.
+    destruct sk; [destruct a; [destruct (skip_exp g) as [se|]; [eapply IHr; exact H|]|..]|];
+      inversion H; subst; constructor; lia. }
+  assert (Hnil : forall i j, i <= j -> wf_forest i j []) by (intros; constructor; assumption).
+  split.
+  - intros sk a e inp i inp' i' ps H.
+    pose proof (consumed_le (proj1 (run_reps_consumed g (S f)) _ _ _ _ _ _ _ _ H)) as Hle.
+    destruct e; cbn [run] in H.
+    + destruct (strip_prefix l inp); [|discriminate]. inversion H; subst. apply Hnil; exact Hle.
+    + destruct (strip_prefix_ci l inp); [|discriminate]. inversion H; subst. apply Hnil; exact Hle.
+    + destruct inp as [|c rest]; [discriminate|]. destruct ((lo <=? c)%N && (c <=? hi)%N); [|discriminate].
+      inversion H; subst. apply Hnil; lia.
+    + destruct inp as [|c rest]; [discriminate|]. inversion H; subst. apply Hnil; lia.
+    + destruct (N.eqb i 0); [|discriminate]. inversion H; subst. apply Hnil; lia.
+    + destruct inp; [|discriminate]. inversion H; subst. apply Hnil; lia.
+    + dres H E. inversion H; subst. pose proof (IHr _ _ _ _ _ _ _ _ E) as Hk.
+      destruct (rule_records g r a); [|exact Hk].
+      constructor; [lia|exact Hle|exact Hk|constructor; lia].
+    + dres H E1. dres H E2. dres H E3. inversion H; subst.
+      eapply wf_forest_app; [eapply IHr; exact E1|]. eapply wf_forest_app; [eapply Hskip; exact E2|eapply IHr; exact E3].
+    + dres H E1. * inversion H; subst. eapply IHr; exact E1. * eapply IHr; exact H.
+    + dres H E1. * inversion H; subst. eapply IHr; exact E1. * inversion H; subst. apply Hnil; lia.
+    + dres H E1.
+      * dres H E2. inversion H; subst. eapply wf_forest_app; [eapply IHr; exact E1|eapply IHp; exact E2].
+      * inversion H; subst. apply Hnil; lia.
+    + eapply IHr; exact H.
+    + dres H E1. inversion H; subst. apply Hnil; lia.
+    + dres H E1. inversion H; subst. apply Hnil; lia.
+  - intros sk a x inp i inp' i' ps H. cbn [reps] in H.
+    dres H E1.
+    + dres H E2.
+      * dres H E3. inversion H; subst.
+        eapply wf_forest_app; [eapply Hskip; exact E1|]. eapply wf_forest_app; [eapply IHr; exact E2|eapply IHp; exact E3].
+      * inversion H; subst. apply Hnil; lia.
+    + inversion H; subst. apply Hnil; lia.
+Qed.
+
+Theorem parse_wf fuel start inp ps :
+  parse_with g fuel start inp = Ok ps -> exists hi, wf_forest 0 hi ps /\ (N.to_nat hi <= length inp)%nat.
+Proof.
+  unfold parse_with. intros H.
+  destruct (run g fuel true ANon (Call start) inp 0) as [[[inp' i'] ps']| |] eqn:E; try discriminate H.
+  inversion H; subst. exists i'. split; [eapply (proj1 (run_reps_wf fuel)); exact E|].
+  assert (Hat : at_off inp inp 0) by (split; [reflexivity|cbn; lia]).
+  destruct (consumed_at_off Hat (proj1 (run_reps_consumed g fuel) _ _ _ _ _ _ _ _ E)) as [_ Hl]. exact Hl.
+Qed.
+End WF.
